@@ -94,7 +94,10 @@ type shadow struct {
 // GenOps constructs an operation list of length 1..maxLen over the given client ids. Choices are
 // weighted on a rough shadow state so that rotations, destroy-rotated with >= 2 rotated keys,
 // destroy-current, reset and reopen all occur often; most operations work on one focus key so that
-// histories get deep, the rest on any kind/id (including keys that were never generated).
+// histories get deep, the rest on any kind/id (including keys that were never generated). About a
+// third of the list comes from short motifs "read, write, read" (a warm cache around a rotation or
+// a destruction, optionally with a reset/reopen before the second read), where the reads may
+// address the sibling kind of the same owner (pair <-> symmetric).
 func GenOps(t *rapid.T, maxLen int, ids []string) []Op {
 	if len(ids) == 0 {
 		ids = []string{"client"}
@@ -118,59 +121,16 @@ func GenOps(t *rapid.T, maxLen int, ids []string) []Op {
 	ops := make([]Op, 0, n)
 	var last K
 	haveLast := false
-	for len(ops) < n {
-		var k K
-		switch c := rapid.IntRange(0, 9).Draw(t, "which"); {
-		case c < 6:
-			k = focus
-		case c < 8 && haveLast:
-			k = last
-		default:
-			k = drawKey("other")
+	emit := func(kind string, k K) {
+		if len(ops) >= n {
+			return
 		}
 		s := get(k)
-		type w struct {
-			op string
-			n  int
+		if kind == OpReadAll && !HasAllKeys(k.Kind) {
+			kind = OpReadCurrent
 		}
-		var ws []w
-		if s.total == 0 {
-			ws = []w{{OpGen, 30}, {OpReadCurrent, 2}, {OpReadAll, 2}, {OpList, 1}, {OpListRotated, 1}, {OpDestroyCurrent, 1}, {OpDestroyRotated, 1}, {OpReset, 1}, {OpReopen, 1}}
-		} else {
-			dr := 2
-			if s.rotated == 1 {
-				dr = 9
-			} else if s.rotated >= 2 {
-				dr = 16
-			}
-			ws = []w{{OpGen, 30}, {OpReadCurrent, 9}, {OpReadAll, 16}, {OpList, 4}, {OpListRotated, 5}, {OpDestroyCurrent, 7}, {OpDestroyRotated, dr}, {OpReset, 8}, {OpReopen, 5}}
-		}
-		if !HasAllKeys(k.Kind) {
-			for i := range ws {
-				if ws[i].op == OpReadAll {
-					ws[i].op = OpReadCurrent
-				}
-			}
-		}
-		if !Destroyable(k.Kind) {
-			for i := range ws {
-				if ws[i].op == OpDestroyCurrent || ws[i].op == OpDestroyRotated {
-					ws[i].op = OpListRotated
-				}
-			}
-		}
-		sum := 0
-		for _, x := range ws {
-			sum += x.n
-		}
-		r := rapid.IntRange(0, sum-1).Draw(t, "op")
-		kind := ws[len(ws)-1].op
-		for _, x := range ws {
-			if r < x.n {
-				kind = x.op
-				break
-			}
-			r -= x.n
+		if (kind == OpDestroyCurrent || kind == OpDestroyRotated) && !Destroyable(k.Kind) {
+			kind = OpListRotated
 		}
 		op := Op{Kind: kind}
 		switch kind {
@@ -197,6 +157,86 @@ func GenOps(t *rapid.T, maxLen int, ids []string) []Op {
 		if op.Key != "" {
 			last, haveLast = k, true
 		}
+	}
+	sibling := func(k K) K {
+		switch k.Kind {
+		case StoragePair:
+			return K{StorageSym, k.ID}
+		case StorageSym:
+			return K{StoragePair, k.ID}
+		case PoisonPair:
+			return K{Kind: PoisonSym}
+		case PoisonSym:
+			return K{Kind: PoisonPair}
+		}
+		return k
+	}
+	type w struct {
+		op string
+		n  int
+	}
+	pick := func(label string, ws []w) string {
+		sum := 0
+		for _, x := range ws {
+			sum += x.n
+		}
+		r := rapid.IntRange(0, sum-1).Draw(t, label)
+		for _, x := range ws {
+			if r < x.n {
+				return x.op
+			}
+			r -= x.n
+		}
+		return ws[len(ws)-1].op
+	}
+	for len(ops) < n {
+		var k K
+		switch c := rapid.IntRange(0, 9).Draw(t, "which"); {
+		case c < 6:
+			k = focus
+		case c < 8 && haveLast:
+			k = last
+		default:
+			k = drawKey("other")
+		}
+		s := get(k)
+		if s.total > 0 && rapid.IntRange(0, 9).Draw(t, "motif") < 3 {
+			// read, write, read
+			rk := k
+			if rapid.IntRange(0, 3).Draw(t, "cross") == 0 {
+				rk = sibling(k)
+				if get(rk).total == 0 {
+					emit(OpGen, rk)
+				}
+			}
+			reads := []w{{OpReadAll, 3}, {OpReadCurrent, 1}}
+			dr := 1
+			if s.rotated > 0 {
+				dr = 3
+			}
+			emit(pick("m.read1", reads), rk)
+			emit(pick("m.write", []w{{OpGen, 4}, {OpDestroyCurrent, 3}, {OpDestroyRotated, dr}}), k)
+			// sometimes the cache is reset (or the keystore reopened) before the second read: the
+			// point where a cached keystore must show exactly the state on storage again
+			if between := pick("m.between", []w{{"", 4}, {OpReset, 2}, {OpReopen, 1}}); between != "" {
+				emit(between, K{})
+			}
+			emit(pick("m.read2", reads), rk)
+			continue
+		}
+		var ws []w
+		if s.total == 0 {
+			ws = []w{{OpGen, 30}, {OpReadCurrent, 2}, {OpReadAll, 2}, {OpList, 1}, {OpListRotated, 1}, {OpDestroyCurrent, 1}, {OpDestroyRotated, 1}, {OpReset, 1}, {OpReopen, 1}}
+		} else {
+			dr := 2
+			if s.rotated == 1 {
+				dr = 9
+			} else if s.rotated >= 2 {
+				dr = 16
+			}
+			ws = []w{{OpGen, 30}, {OpReadCurrent, 9}, {OpReadAll, 16}, {OpList, 4}, {OpListRotated, 5}, {OpDestroyCurrent, 7}, {OpDestroyRotated, dr}, {OpReset, 8}, {OpReopen, 5}}
+		}
+		emit(pick("op", ws), k)
 	}
 	return ops
 }
